@@ -46,7 +46,12 @@ var cborDecModeDefault = func() cbor.DecMode {
 type TI struct {
 	ID        uint64
 	Composite bool
+	// Long > 0: the type info encodes to a byte string of that many bytes behind tag 201 (type identifiers of real clients
+	// are long strings; the library caches their encoding in pooled buffers sized for 256 bytes)
+	Long uint16
 }
+
+const tiLongTag = 201
 
 const tiCompositeTag = 200
 
@@ -63,6 +68,22 @@ func (t TI) Encode(enc *cbor.StreamEncoder) error {
 	if f := tiFailID.Load(); f != 0 && t.ID == f {
 		return ErrTypeInfo
 	}
+	if t.Long > 0 {
+		b := make([]byte, t.Long)
+		for i := range b {
+			b[i] = 'x'
+		}
+		if t.Composite {
+			b[0] = 1
+		} else {
+			b[0] = 0
+		}
+		putUint64(b[1:9], t.ID)
+		if err := enc.EncodeTagHead(tiLongTag); err != nil {
+			return err
+		}
+		return enc.EncodeBytes(b)
+	}
 	if t.Composite {
 		if err := enc.EncodeTagHead(tiCompositeTag); err != nil {
 			return err
@@ -73,10 +94,14 @@ func (t TI) Encode(enc *cbor.StreamEncoder) error {
 func (t TI) IsComposite() bool    { return t.Composite }
 func (t TI) Copy() atree.TypeInfo { return t }
 func (t TI) String() string {
-	if t.Composite {
-		return fmt.Sprintf("C%d", t.ID)
+	l := ""
+	if t.Long > 0 {
+		l = fmt.Sprintf("/%d", t.Long)
 	}
-	return fmt.Sprintf("T%d", t.ID)
+	if t.Composite {
+		return fmt.Sprintf("C%d%s", t.ID, l)
+	}
+	return fmt.Sprintf("T%d%s", t.ID, l)
 }
 
 func decodeTypeInfo(dec *cbor.StreamDecoder) (atree.TypeInfo, error) {
@@ -95,6 +120,16 @@ func decodeTypeInfo(dec *cbor.StreamDecoder) (atree.TypeInfo, error) {
 		n, err := dec.DecodeTagNumber()
 		if err != nil {
 			return nil, err
+		}
+		if n == tiLongTag {
+			b, err := dec.DecodeBytes()
+			if err != nil {
+				return nil, err
+			}
+			if len(b) < 9 || len(b) > 65535 {
+				return nil, fmt.Errorf("verif: long type info of %d bytes", len(b))
+			}
+			return TI{ID: getUint64(b[1:9]), Composite: b[0] == 1, Long: uint16(len(b))}, nil
 		}
 		if n != tiCompositeTag {
 			return nil, fmt.Errorf("verif: unknown type info tag %d", n)
